@@ -9,14 +9,19 @@ package main
 // versions are re-created until the hash starts as wanted); ResolvePrefix, ResolveExcerptPrefix, ResolveComment and
 // commands/select.Resolve are asked for every prefix length 0..64 of every id and combined id, plus foreign prefixes.
 // The model receives the REAL id strings as code points; answers are positions in the (sorted) population.
+// Every *BugCache a successful answer hands out is USED (Snapshot, which takes the entity's lock) under a watchdog: an
+// instance evicted from the sub-cache is locked for ever, so a resolution that returns one returns nothing usable. The same
+// questions are asked again with room for only 0..3 loaded entities (SetCacheSize), where resolving one entity evicts others.
 
 import (
 	"encoding/json"
 	"errors"
 	"fmt"
 	"os"
+	"runtime"
 	"sort"
 	"strings"
+	"time"
 
 	"github.com/99designs/keyring"
 
@@ -209,6 +214,68 @@ type c13cInput struct {
 	Reopen   bool        `json:"reopen"` // close and reopen the cache (excerpts loaded from the cache files) before asking
 	QSeed    uint64      `json:"qseed"`
 	NForeign int         `json:"nforeign"`
+	// bounds on the number of loaded entities (SetCacheSize) under which the shortest identifying prefixes are asked again,
+	// the objects handed out being used; absent: derived from qseed, [-1]: none
+	CacheSizes []int `json:"cache_sizes,omitempty"`
+}
+
+// c13CacheSizes: two small bounds, 1 most often (every load of another candidate evicts the previous one)
+func c13CacheSizes(in *c13cInput) []int {
+	if len(in.CacheSizes) > 0 {
+		var res []int
+		for _, s := range in.CacheSizes {
+			if s >= 0 && s <= 8 && len(res) < 3 {
+				res = append(res, s)
+			}
+		}
+		return res
+	}
+	cr := NewRand(in.QSeed ^ 0x13c13c13)
+	a := []int{1, 1, 2, 0}[cr.Intn(4)]
+	b := []int{2, 3, 1}[cr.Intn(3)]
+	if a == b {
+		b = 3
+	}
+	return []int{a, b}
+}
+
+// c13Use runs one use of an object handed out by a resolution (a call that takes the object's lock) and reports whether it
+// returned. A use that has not returned after a second is looked up in the goroutine dump: waiting for the object's mutex in
+// this single-threaded scenario means that the instance was locked by the eviction, for ever. Anything else (a slow machine)
+// is waited for, up to a minute.
+func c13Use(use func()) bool {
+	done := make(chan struct{})
+	go c13UseGo(use, done)
+	t := time.NewTimer(time.Second)
+	defer t.Stop()
+	for waited := 0; waited < 60; waited++ {
+		select {
+		case <-done:
+			return true
+		case <-t.C:
+		}
+		buf := make([]byte, 1<<22)
+		buf = buf[:runtime.Stack(buf, true)]
+		for _, g := range strings.Split(string(buf), "\n\n") {
+			if !strings.Contains(g, "main.c13UseGo") {
+				continue
+			}
+			head := g
+			if i := strings.IndexByte(g, '\n'); i > 0 {
+				head = g[:i]
+			}
+			if strings.Contains(head, "Mutex") || strings.Contains(head, "semacquire") {
+				return false
+			}
+		}
+		t.Reset(time.Second)
+	}
+	return false
+}
+
+func c13UseGo(use func(), done chan struct{}) {
+	use()
+	close(done)
 }
 
 type c13cDriver struct{}
@@ -362,7 +429,7 @@ func (p *c13Pop) entityObs(id string, err error, idx map[string]int) string {
 
 type c13Run struct {
 	api, base, tweak string
-	from             int
+	cap, from        int
 	obs              []string // one per prefix length
 }
 
@@ -376,7 +443,7 @@ func (ru c13Run) coq() string {
 		segs = append(segs, coqPair(ru.obs[i], fmt.Sprint(j-i)))
 		i = j
 	}
-	return fmt.Sprintf("mkrun %s %s %s %d %s", ru.api, ru.base, ru.tweak, ru.from, coqList(segs))
+	return fmt.Sprintf("mkrun %s %s %s %d%%N %d %s", ru.api, ru.base, ru.tweak, ru.cap, ru.from, coqList(segs))
 }
 
 func c13Tweak(kind string, ch byte, x string) string {
@@ -641,13 +708,28 @@ func (c13cDriver) Run(raw json.RawMessage) Case {
 		}
 		counts[k]++
 	}
+	// the object handed out is used; a use that blocks for ever costs a second: after a few of them the remaining
+	// small-cache questions are dropped (the case fails anyway)
+	nLocked, lockedBudget := 0, 6
+	locked := func(o string) string {
+		nLocked++
+		lockedBudget--
+		return "(OLocked " + o + ")"
+	}
+	useBug := func(bc *cache.BugCache) bool {
+		return c13Use(func() { _ = bc.Snapshot() })
+	}
 	askBug := func(p string) string {
 		bc, err := rc.Bugs().ResolvePrefix(p)
 		id := ""
 		if err == nil {
 			id = string(bc.Id())
 		}
-		return pop.entityObs(id, err, pop.bugIdx)
+		o := pop.entityObs(id, err, pop.bugIdx)
+		if err == nil && !useBug(bc) {
+			return locked(o)
+		}
+		return o
 	}
 	askBugEx := func(p string) string {
 		ex, err := rc.Bugs().ResolveExcerptPrefix(p)
@@ -664,6 +746,20 @@ func (c13cDriver) Run(raw json.RawMessage) Case {
 			id = string(ic.Id())
 		}
 		return pop.entityObs(id, err, pop.identIdx)
+	}
+	// an identity is used by CommitAsNeeded (nothing to commit; it takes the lock, then refreshes the excerpt): only asked
+	// in the small-cache questions
+	askIdentUse := func(p string) string {
+		ic, err := rc.Identities().ResolvePrefix(p)
+		id := ""
+		if err == nil {
+			id = string(ic.Id())
+		}
+		o := pop.entityObs(id, err, pop.identIdx)
+		if err == nil && !c13Use(func() { _ = ic.CommitAsNeeded() }) {
+			return locked(o)
+		}
+		return o
 	}
 	askIdentEx := func(p string) string {
 		ex, err := rc.Identities().ResolveExcerptPrefix(p)
@@ -685,19 +781,24 @@ func (c13cDriver) Run(raw json.RawMessage) Case {
 		if !ok {
 			return "OUnknown"
 		}
+		o := "OUnknown"
 		for j, c := range pop.comments[b] {
 			if c[1] == string(cid) {
-				return fmt.Sprintf("(OFoundC %d %d %d)", b, b, j)
+				o = fmt.Sprintf("(OFoundC %d %d %d)", b, b, j)
+				break
 			}
 		}
 		for cb, cs := range pop.comments {
 			for j, c := range cs {
-				if c[1] == string(cid) {
-					return fmt.Sprintf("(OFoundC %d %d %d)", b, cb, j)
+				if o == "OUnknown" && c[1] == string(cid) {
+					o = fmt.Sprintf("(OFoundC %d %d %d)", b, cb, j)
 				}
 			}
 		}
-		return "OUnknown"
+		if !useBug(bc) {
+			return locked(o)
+		}
+		return o
 	}
 	// select.Resolve with the stored selection set as asked (a dangling selection is removed by the code, so it is
 	// written again before every call)
@@ -729,14 +830,19 @@ func (c13cDriver) Run(raw json.RawMessage) Case {
 			if !ok {
 				return "OUnknown"
 			}
-			return fmt.Sprintf("(OSelFound %d %d)", i, len(rest))
+			o := fmt.Sprintf("(OSelFound %d %d)", i, len(rest))
+			if !useBug(bc) {
+				return locked(o)
+			}
+			return o
 		}
 	}
 
 	var runs []c13Run
 	nq := 0
+	capNow := 1000 // cache.defaultMaxLoadedBugs
 	sweep := func(api string, ask func(string) string, base, str, tweakTerm, tweakKind string, ch byte, from, to int) {
-		ru := c13Run{api: api, base: base, tweak: tweakTerm, from: from}
+		ru := c13Run{api: api, base: base, tweak: tweakTerm, cap: capNow, from: from}
 		for k := from; k <= to && k <= len(str); k++ {
 			o := ask(c13Tweak(tweakKind, ch, str[:k]))
 			count(o)
@@ -866,6 +972,142 @@ func (c13cDriver) Run(raw json.RawMessage) Case {
 		sweep("AComment", askComment, base, s, "TNone", "", 0, len(s), len(s))
 		sweep("(ASelect SelNone 1)", askSelect("", 1), base, s, "TNone", "", 0, len(s), len(s))
 	}
+
+	// ---- the same entities and comments addressed with room for a few loaded entities only: resolving one candidate evicts
+	// others, and the object handed out has to be the loaded instance (it is used). Asked: the shortest prefix that identifies
+	// the target (the largest set of other candidates) and the next length.
+	var cids []string
+	for _, cs := range pop.comments {
+		for _, c := range cs {
+			cids = append(cids, c[1])
+		}
+	}
+	shortest := func(id string, all []string) int { // the shortest prefix of id that no other element of all has
+		k := 0
+		for _, o := range all {
+			if o == id {
+				continue
+			}
+			l := 0
+			for l < len(o) && l < len(id) && o[l] == id[l] {
+				l++
+			}
+			if l+1 > k {
+				k = l + 1
+			}
+		}
+		if k > len(id) {
+			k = len(id)
+		}
+		return k
+	}
+	sizes := c13CacheSizes(&in)
+	nLive, nPressure := 0, 0
+	if len(sizes) > 0 && !in.Reopen {
+		// the entities loaded while the cache was BUILT are not in the LRU list and are never evicted: the questions are asked
+		// as a new process asks them, on a cache loaded from its files (pending operations are committed first, the
+		// population stays what it is)
+		for _, id := range pop.bugIDs {
+			bc, err := rc.Bugs().Resolve(entity.Id(id))
+			if err != nil {
+				panic(err)
+			}
+			if bc.NeedCommit() {
+				if err := bc.Commit(); err != nil {
+					panic(err)
+				}
+			}
+		}
+		closeCache()
+		repo, err = c13OpenRepo(dir)
+		if err != nil {
+			panic(err)
+		}
+		closed = false
+		rc, err = cache.NewRepoCacheNoEvents(repo)
+		if err != nil {
+			panic(err)
+		}
+	}
+	for _, size := range sizes {
+		if lockedBudget <= 0 {
+			break
+		}
+		rc.Bugs().SetCacheSize(size)
+		rc.Identities().SetCacheSize(size)
+		capNow = size
+		room := size
+		if room < 1 {
+			room = 1 // the entity being handed out is never evicted
+		}
+		type comq struct{ b, j int }
+		var cq []comq
+		for b, cs := range pop.comments {
+			for j := range cs {
+				cq = append(cq, comq{b, j})
+			}
+		}
+		for i := len(cq) - 1; i > 0; i-- { // at most 24 comments, drawn at random
+			j := qr.Intn(i + 1)
+			cq[i], cq[j] = cq[j], cq[i]
+		}
+		if len(cq) > 24 {
+			cq = cq[:24]
+		}
+		for _, q := range cq {
+			if lockedBudget <= 0 {
+				break
+			}
+			cid := pop.comments[q.b][q.j][1]
+			if len(cid) != 64 {
+				continue
+			}
+			k := shortest(cid, cids)
+			to := k + 1
+			if to > 64 {
+				to = 64
+			}
+			bp, _ := entity.SeparateIds(cid[:k])
+			ncand := 0
+			for _, id := range pop.bugIDs {
+				if strings.HasPrefix(id, bp) {
+					ncand++
+				}
+			}
+			if ncand > room {
+				nPressure++
+			}
+			nLive++
+			sweep("AComment", askComment, fmt.Sprintf("(BCom %d %d)", q.b, q.j), cid, "TNone", "", 0, k, to)
+		}
+		for i, id := range pop.bugIDs {
+			if lockedBudget <= 0 {
+				break
+			}
+			base := fmt.Sprintf("(BBug %d)", i)
+			k := shortest(id, pop.bugIDs)
+			nLive += 2
+			sweep("ABug", askBug, base, id, "TNone", "", 0, k, k)
+			sweep("(ASelect SelNone 1)", askSelect("", 1), base, id, "TNone", "", 0, k, k)
+			if i < 2 {
+				// no bug is addressed: the stored selection is resolved
+				term, sid := selOther(i)
+				nLive++
+				sweep(term, askSelect(sid, 2), "(BRaw "+coqRunes("zz")+")", "zz", "TNone", "", 0, 2, 2)
+			}
+		}
+		for i, id := range pop.identIDs {
+			if lockedBudget <= 0 {
+				break
+			}
+			k := shortest(id, pop.identIDs)
+			nLive++
+			sweep("AIdent", askIdentUse, fmt.Sprintf("(BIdent %d)", i), id, "TNone", "", 0, k, k)
+		}
+	}
+	capNow = 1000
+	rc.Bugs().SetCacheSize(capNow)
+	rc.Identities().SetCacheSize(capNow)
 	_ = _select.Clear(rc, bug.Namespace)
 
 	// ---- the case
@@ -903,12 +1145,6 @@ func (c13cDriver) Run(raw json.RawMessage) Case {
 		}
 		return m
 	}
-	var cids []string
-	for _, cs := range pop.comments {
-		for _, c := range cs {
-			cids = append(cids, c[1])
-		}
-	}
 	tags := []string{fmt.Sprintf("lcp-bug:%d", lcp(pop.bugIDs)), fmt.Sprintf("lcp-ident:%d", lcp(pop.identIDs)), fmt.Sprintf("lcp-combined:%d", lcp(cids))}
 	if in.Reopen {
 		tags = append(tags, "cache:reloaded")
@@ -921,9 +1157,19 @@ func (c13cDriver) Run(raw json.RawMessage) Case {
 			break
 		}
 	}
+	if nPressure > 0 {
+		tags = append(tags, "small-cache:more-candidates-than-room")
+	} else if nLive > 0 {
+		tags = append(tags, "small-cache:no-eviction-pressure")
+	}
+	if nLocked > 0 {
+		tags = append(tags, "handle:locked")
+	}
 	sort.Strings(tags)
 	obs := map[string]interface{}{
 		"bugs": len(pop.bugIDs), "comments": ncom, "identities": len(pop.identIDs), "questions": nq, "answers": counts,
+		"cache_sizes": sizes, "small_cache_questions": nLive, "small_cache_comment_questions_with_more_candidates_than_room": nPressure,
+		"locked_objects_handed_out": nLocked, "small_cache_questions_dropped": lockedBudget <= 0,
 		"bug_ids": pop.bugIDs, "identity_ids": pop.identIDs, "combined_ids": cids,
 	}
 	return Case{Coq: term, Obs: obs, Tags: tags, NonTrivial: len(pop.bugIDs) >= 2 && counts["OMultiple"] > 0 && counts["OFound"] > 0, Key: string(raw)}
